@@ -537,119 +537,135 @@ theorem CoreInv.raise {b : Build} {base allow : Nat} {c : Core} (h : CoreInv b b
 theorem free_live (h : Heap) (n : Nat) : (h.free n).live = h.live - n := rfl
 theorem free_peak (h : Heap) (n : Nat) : (h.free n).peak = h.peak := rfl
 
+/-- `blockInit` from a state in which the `keep` bytes of decoded filter options are live on top of the invariant. -/
+theorem blockInit_inv (b : Build) (hb : b.Ok) (base allow : Nat)
+    (hbase : base + b.szBlockDecoder + 4 * b.optMax + 16384 ≤ MEMUSAGE_BASE + allow)
+    (c1 : Core) (keep : Nat) (fs : List Filter) (res : InitResult) (c' : Core) (hkeep : keep ≤ 4 * b.optMax)
+    (hchain : ∃ fs0, c1.chain = fs0.map (nodeOf b) ∧ NoOther fs0 ∧ LzLast fs0)
+    (hlive : c1.heap.live = base + (if c1.blockAlloc then b.szBlockDecoder else 0) + chainBytes c1.chain + keep)
+    (hnob : c1.blockAlloc = false → c1.chain = [])
+    (hpeak : c1.heap.peak ≤ max MEMUSAGE_BASE c1.memlimit + allow)
+    (hroom : base + b.szBlockDecoder + 4 * b.optMax + chainBytes c1.chain ≤ max MEMUSAGE_BASE c1.memlimit + allow)
+    (h : blockInit b c1 keep fs = (res, c')) :
+    CoreInv b base allow c' ∧ (res = .memlimit → c'.memlimit < c'.memusage) := by
+  obtain ⟨fs0, hch, hno0, hlz0⟩ := hchain
+  unfold blockInit at h
+  cases hm : rawDecoderMemusage b fs with
+  | none =>
+    rw [hm] at h
+    simp only [Prod.mk.injEq] at h
+    obtain ⟨hres, hc'⟩ := h
+    subst hres; subst hc'
+    refine ⟨⟨⟨fs0, hch, hno0, hlz0⟩, ?_, hnob, hpeak, hroom⟩, fun h => by cases h⟩
+    simp only [free_live, hlive]; omega
+  | some m =>
+    rw [hm] at h
+    dsimp only at h
+    by_cases hgt : m > c1.memlimit
+    · rw [if_pos hgt] at h
+      simp only [Prod.mk.injEq] at h
+      obtain ⟨hres, hc'⟩ := h
+      subst hres; subst hc'
+      refine ⟨⟨⟨fs0, hch, hno0, hlz0⟩, ?_, hnob, hpeak, hroom⟩, fun _ => hgt⟩
+      simp only [free_live, hlive]; omega
+    · rw [if_neg hgt] at h
+      obtain ⟨hcok, hknown, hval, hfit⟩ := memusage_facts b hb.bcj fs m hm
+      have hno : NoOther fs := known_noOther hknown
+      have hspec := chainScript_spec b fs fs0 (base + keep + b.szBlockDecoder) hno hno0 hlz0
+      rw [← hch] at hspec
+      simp only [blockInitScript, rawDecoderReinitScript, hval, ne_eq, not_true_eq_false, ↓reduceIte, hknown,
+        Bool.not_true, Bool.false_eq_true] at h
+      cases hcs : chainScript b fs c1.chain with
+      | mk r p =>
+        obtain ⟨cops, c2⟩ := p
+        rw [hcs] at hspec
+        obtain ⟨sp1, sp2, sp3, sp4⟩ := hspec
+        simp only at sp1 sp2 sp3 sp4
+        simp only [hcs] at h
+        have hstart : scriptLive c1.heap.live (if c1.blockAlloc = true then [] else [Op.alloc b.szBlockDecoder])
+            = base + keep + b.szBlockDecoder + chainBytes c1.chain := by
+          cases hba : c1.blockAlloc with
+          | true => simp only [hba, ↓reduceIte, scriptLive] at hlive ⊢; omega
+          | false =>
+            have := hnob hba
+            simp only [hba, Bool.false_eq_true, ↓reduceIte, scriptLive, this, chainBytes_nil] at hlive ⊢; omega
+        have hstartp : scriptPeak c1.heap.live (if c1.blockAlloc = true then [] else [Op.alloc b.szBlockDecoder])
+            ≤ base + keep + b.szBlockDecoder + chainBytes c1.chain := by
+          cases hba : c1.blockAlloc with
+          | true => simp only [hba, ↓reduceIte, scriptPeak]; omega
+          | false =>
+            have := hnob hba
+            simp only [hba, Bool.false_eq_true, ↓reduceIte, scriptPeak, this, chainBytes_nil] at hlive ⊢; omega
+        by_cases hr : r = 0
+        · subst hr
+          simp only [ne_eq, not_true_eq_false, ↓reduceIte, Prod.mk.injEq] at h
+          obtain ⟨hres, hc'⟩ := h
+          subst hres; subst hc'
+          have hc1 := sp3 rfl
+          have hcb : chainBytes c2 = (rawDecoderAllocs b fs).sum := by rw [hc1]; exact chainBytes_map_nodeOf b fs hno
+          refine ⟨⟨⟨fs, hc1, hno, chainOk_lzLast hcok⟩, ?_, (fun h => by cases h), ?_, ?_⟩, (fun h => by cases h)⟩
+          · simp only [free_live, apply_live_eq, scriptLive_append, hstart, sp2, ↓reduceIte]; omega
+          · simp only [free_peak, apply_peak_eq, scriptPeak_append, hstart]; omega
+          · simp only [hcb]; omega
+        · simp only [ne_eq, hr, not_false_eq_true, ↓reduceIte, Prod.mk.injEq] at h
+          obtain ⟨hres, hc'⟩ := h
+          subst hres; subst hc'
+          refine ⟨⟨⟨[], rfl, (fun _ h => by cases h), trivial⟩, ?_, (fun h => by cases h), ?_, ?_⟩, (fun h => by cases h)⟩
+          · simp only [free_live, apply_live_eq, scriptLive_append, hstart, sp2, ↓reduceIte, scriptLive,
+              chainBytes_nil]; omega
+          · simp only [free_peak, apply_peak_eq, scriptPeak_append, hstart, sp2, scriptPeak]; omega
+          · simp only [chainBytes_nil]; omega
+
+/-- What SEQ_BLOCK_INIT does when `lzma_block_header_decode` fails: some option structs were allocated and freed. -/
+theorem blockAttempt_error (b : Build) (check : Nat) (hdr : List UInt8) (c : Core) (e : Ret)
+    (hd : Container.blockHeaderDecodeWith hdr.length check hdr = .error e) :
+    ∃ a : List Nat, a.sum ≤ 4 * b.optMax
+      ∧ blockAttempt b check hdr c = (.done e.toNat, { c with heap := (c.heap.allocs a).free a.sum }) := by
+  simp only [blockAttempt, hd]
+  refine ⟨_, ?_, rfl⟩
+  split
+  · simp
+  · split
+    · simp
+    · have h4 : ((hdr.getD 1 0).toNat % 4 + 1) * b.optMax ≤ 4 * b.optMax := Nat.mul_le_mul_right _ (by omega)
+      exact Nat.le_trans (failedHeaderAllocs_le b _ _) h4
+
 /-- One pass through SEQ_BLOCK_INIT keeps the invariant; LZMA_MEMLIMIT_ERROR means that more than the limit is needed. -/
 theorem blockAttempt_inv (b : Build) (hb : b.Ok) (base allow : Nat)
     (hbase : base + b.szBlockDecoder + 4 * b.optMax + 16384 ≤ MEMUSAGE_BASE + allow)
     (check : Nat) (hdr : List UInt8) (c : Core) (res : InitResult) (c' : Core) (hinv : CoreInv b base allow c)
     (h : blockAttempt b check hdr c = (res, c')) :
     CoreInv b base allow c' ∧ (res = .memlimit → c'.memlimit < c'.memusage) := by
-  obtain ⟨⟨fs0, hch, hno0, hlz0⟩, hlive, hnob, hpeak, hroom⟩ := hinv
-  simp only [blockAttempt] at h
   cases hd : Container.blockHeaderDecodeWith hdr.length check hdr with
   | error e =>
-    simp only [hd, Prod.mk.injEq] at h
+    obtain ⟨a, hsum, heq⟩ := blockAttempt_error b check hdr c e hd
+    rw [heq] at h
+    simp only [Prod.mk.injEq] at h
     obtain ⟨hres, hc'⟩ := h
     subst hres; subst hc'
-    refine ⟨⟨⟨fs0, hch, hno0, hlz0⟩, ?_, hnob, ?_, hroom⟩, fun h => by cases h⟩
+    obtain ⟨hchain, hlive, hnob, hpeak, hroom⟩ := hinv
+    refine ⟨⟨hchain, ?_, hnob, ?_, hroom⟩, fun h => by cases h⟩
     · simp only [free_live, allocs_live]; omega
     · simp only [free_peak]
-      generalize ha : (if e = Ret.dataError ∧ Container.crc32 (List.take (hdr.length - 4) hdr) ≠ Container.rd32 (List.drop (hdr.length - 4) hdr) then []
-        else if (hdr.getD 1 0).toNat / 4 % 16 ≠ 0 then [] else failedHeaderAllocs b ((hdr.getD 1 0).toNat % 4 + 1) _) = a
-      have hsum : a.sum ≤ 4 * b.optMax := by
-        rw [← ha]
-        split
-        · simp
-        · split
-          · simp
-          · have := failedHeaderAllocs_le b ((hdr.getD 1 0).toNat % 4 + 1) ‹_›
-            have h4 : ((hdr.getD 1 0).toNat % 4 + 1) * b.optMax ≤ 4 * b.optMax := Nat.mul_le_mul_right _ (by omega)
-            omega
       rw [allocs_eq_apply]
       have := apply_peak_le (a.map Op.alloc) c.heap
       rw [allocSum_map_alloc] at this
       split at hlive <;> omega
   | ok bh =>
-    simp only [hd] at h
+    simp only [blockAttempt, hd] at h
     have hlen := blockHeader_filters_le _ _ _ _ hd
     obtain ⟨hos, hok⟩ := optionScript_allocSum_le b bh.filters
     have holive := optionScript_live b bh.filters c.heap
     have hopeak := apply_peak_le (optionScript b bh.filters).1 c.heap
-    cases hopt : optionScript b bh.filters with
-    | mk ops p =>
-      obtain ⟨keep, fs⟩ := p
-      rw [hopt] at hos hok holive hopeak
-      simp only at hos hok holive hopeak h
-      have h4 : bh.filters.length * b.optMax ≤ 4 * b.optMax := Nat.mul_le_mul_right _ hlen
-      simp only [blockInit] at h
-      cases hm : rawDecoderMemusage b fs with
-      | none =>
-        simp only [hm, Prod.mk.injEq] at h
-        obtain ⟨hres, hc'⟩ := h
-        subst hres; subst hc'
-        refine ⟨⟨⟨fs0, hch, hno0, hlz0⟩, ?_, hnob, ?_, hroom⟩, fun h => by cases h⟩
-        · simp only [free_live, holive]; omega
-        · simp only [free_peak]; split at hlive <;> omega
-      | some m =>
-        simp only [hm] at h
-        by_cases hgt : m > c.memlimit
-        · simp only [hgt, ↓reduceIte, Prod.mk.injEq] at h
-          obtain ⟨hres, hc'⟩ := h
-          subst hres; subst hc'
-          refine ⟨⟨⟨fs0, hch, hno0, hlz0⟩, ?_, hnob, ?_, hroom⟩, fun _ => hgt⟩
-          · simp only [free_live, holive]; omega
-          · simp only [free_peak]; split at hlive <;> omega
-        · simp only [hgt, ↓reduceIte] at h
-          obtain ⟨hcok, hknown, hval, hfit⟩ := memusage_facts b hb.bcj fs m hm
-          have hno : NoOther fs := known_noOther hknown
-          -- the chain initialisation, starting with X + chainBytes(old chain) live
-          have hspec := chainScript_spec b fs fs0 (base + keep + b.szBlockDecoder) hno hno0 hlz0
-          rw [← hch] at hspec
-          simp only [blockInitScript, rawDecoderReinitScript, hval, ne_eq, not_true_eq_false, ↓reduceIte, hknown,
-            Bool.not_true, Bool.false_eq_true] at h
-          cases hcs : chainScript b fs c.chain with
-          | mk r p =>
-            obtain ⟨cops, c1⟩ := p
-            rw [hcs] at hspec
-            obtain ⟨sp1, sp2, sp3, sp4⟩ := hspec
-            simp only at sp1 sp2 sp3 sp4
-            simp only [hcs] at h
-            -- live bytes when the chain script starts
-            have hstart : scriptLive (c.heap.live + keep) (if c.blockAlloc = true then [] else [Op.alloc b.szBlockDecoder])
-                = base + keep + b.szBlockDecoder + chainBytes c.chain := by
-              cases hba : c.blockAlloc with
-              | true => simp only [hba, ↓reduceIte, scriptLive] at hlive ⊢; omega
-              | false =>
-                have := hnob hba
-                simp only [hba, Bool.false_eq_true, ↓reduceIte, scriptLive, this, chainBytes_nil] at hlive ⊢; omega
-            have hstartp : scriptPeak (c.heap.live + keep) (if c.blockAlloc = true then [] else [Op.alloc b.szBlockDecoder])
-                ≤ base + keep + b.szBlockDecoder + chainBytes c.chain := by
-              cases hba : c.blockAlloc with
-              | true => simp only [hba, ↓reduceIte, scriptPeak]; omega
-              | false =>
-                have := hnob hba
-                simp only [hba, Bool.false_eq_true, ↓reduceIte, scriptPeak, this, chainBytes_nil] at hlive ⊢; omega
-            by_cases hr : r = 0
-            · subst hr
-              simp only [ne_eq, not_true_eq_false, ↓reduceIte, Prod.mk.injEq] at h
-              obtain ⟨hres, hc'⟩ := h
-              subst hres; subst hc'
-              have hc1 := sp3 rfl
-              have hcb : chainBytes c1 = (rawDecoderAllocs b fs).sum := by rw [hc1]; exact chainBytes_map_nodeOf b fs hno
-              refine ⟨⟨⟨fs, hc1, hno, chainOk_lzLast hcok⟩, ?_, fun h => by cases h, ?_, ?_⟩, fun h => by cases h⟩
-              · simp only [free_live, apply_live_eq, holive, scriptLive_append, hstart, sp2, ↓reduceIte]; omega
-              · simp only [free_peak, apply_peak_eq, holive, scriptPeak_append, hstart]
-                rw [apply_peak_eq] at hopeak
-                omega
-              · simp only [hcb]; omega
-            · simp only [ne_eq, hr, not_false_eq_true, ↓reduceIte, Prod.mk.injEq] at h
-              obtain ⟨hres, hc'⟩ := h
-              subst hres; subst hc'
-              refine ⟨⟨⟨[], rfl, fun _ h => by cases h, trivial⟩, ?_, fun h => by cases h, ?_, ?_⟩, fun h => by cases h⟩
-              · simp only [free_live, apply_live_eq, holive, scriptLive_append, hstart, sp2, ↓reduceIte, scriptLive,
-                  chainBytes_nil]; omega
-              · simp only [free_peak, apply_peak_eq, holive, scriptPeak_append, hstart, sp2, scriptPeak]
-                rw [apply_peak_eq] at hopeak
-                omega
-              · simp only [chainBytes_nil]; omega
+    have h4 : bh.filters.length * b.optMax ≤ 4 * b.optMax := Nat.mul_le_mul_right _ hlen
+    obtain ⟨hchain, hlive, hnob, hpeak, hroom⟩ := hinv
+    refine blockInit_inv b hb base allow hbase { c with heap := c.heap.apply (optionScript b bh.filters).1 }
+      (optionScript b bh.filters).2.1 (optionScript b bh.filters).2.2 res c' (by omega) hchain ?_ hnob ?_ hroom h
+    · show (c.heap.apply (optionScript b bh.filters).1).live = _
+      rw [holive, hlive]
+    · show (c.heap.apply (optionScript b bh.filters).1).peak ≤ max MEMUSAGE_BASE c.memlimit + allow
+      have hop' : (c.heap.apply (optionScript b bh.filters).1).peak ≤ max c.heap.peak (c.heap.live + 4 * b.optMax) :=
+        Nat.le_trans hopeak (by omega)
+      split at hlive <;> omega
 
 end XzVerif.Memlimit
